@@ -480,6 +480,45 @@ func runC05Faults(env *Env, rc *RunCtx, sys *Sys) {
 			}
 		}
 	}
+	// PATCH only: the action word of one delta in another spelling of the SAME
+	// action ("INSERT", "Delete"). Whether the server takes it for the action or
+	// refuses the request is its business; the request is applied as a whole or
+	// not at all
+	if rq.Kind == "patch" {
+		for _, p := range ps {
+			if p < 0 || p >= len(all) {
+				continue
+			}
+			bad := append([]Delta(nil), all...)
+			word := "delete"
+			if bad[p].Insert {
+				word = "insert"
+			}
+			switch (p + len(all)) % 3 {
+			case 0:
+				word = strings.ToUpper(word)
+			case 1:
+				word = strings.ToUpper(word[:1]) + word[1:]
+			default:
+				word = word[:len(word)-1] + strings.ToUpper(word[len(word)-1:])
+			}
+			bad[p].Act = word
+			env.Restore()
+			r := sys.Patch(bad)
+			rc.Rec.Execs++
+			rc.Count("probe_action_in_another_spelling", 1)
+			sa, _ := env.StateHash()
+			ex := map[string]any{"position": p, "of": len(all), "action_word": word, "response": r.String()}
+			if r.OK() && contentOf(sa) != contentOf(s1) && sa != s0 {
+				rc.Violate("partial-apply", "action-spelling", fmt.Sprintf("request with action %q at position %d/%d was acknowledged (%s) and left a state that is neither before nor after", word, p, len(all), r), w(ex), -1, nil)
+				return
+			}
+			if !r.OK() && sa != s0 {
+				rc.Violate("partial-apply", "action-spelling", fmt.Sprintf("request with action %q at position %d/%d failed (%s) but changed the stored state", word, p, len(all), r), w(ex), -1, nil)
+				return
+			}
+		}
+	}
 	// the Manager called directly with a relationship that has no subject, at
 	// every position (sampled around the chunk boundaries when the call is
 	// large): the call fails and nothing is stored or deleted
